@@ -39,7 +39,7 @@ REQUIRED = {
         "exodus_tri3": 5, "exodus_tri6": 5, "exodus_unnamed_sets": 3, "exodus_named_sets": 3, "exodus_no_elem_map": 3, "exodus_elem_map": 3,
         "exodus_multi_block": 5, "exodus_tri6_midside_checked": 100, "read_members_compared": 200, "json_files": 5,
         "structured_meshes": 10,
-        "class:structured": 5, "class:elevate": 5, "class:edges": 5, "class:combine": 5, "class:exodus": 5, "class:json": 3,
+        "class:structured": 5, "merge_operand_checked_numpy_backed": 20, "merge_repeated_with_same_operands": 10, "class:elevate": 5, "class:edges": 5, "class:combine": 5, "class:exodus": 5, "class:json": 3,
     },
 }
 WATCHDOG_S = {"quick": 1800, "thorough": 4 * 3600}
@@ -305,9 +305,14 @@ def _rand_linear_mesh(rng, i, k, names_mode, shift):
     nodeSets = None if r < 0.15 else G.random_node_sets(rng, len(pts), names("ns", int(rng.integers(1, 4))), allow_empty=True)
     r = rng.random()
     sideSets = None if r < 0.15 else G.random_side_sets(rng, tri, names("ss", int(rng.integers(1, 4))), allow_empty=True)
-    mesh = meshes.make_mesh(pts, tri, _to_j(blocks), _to_j(nodeSets), _to_j(sideSets))
+    # what file readers return: plain (writeable) numpy arrays for blocks and node sets; otherwise jax arrays.  The mesh gets its
+    # own copies, so that the description below stays what was put in even if the library writes into its arguments.
+    numpy_backed = rng.random() < 0.4
+    conv = (lambda d: None if d is None else {k2: onp.array(v, copy=True) for k2, v in d.items()}) if numpy_backed else _to_j
+    mesh = meshes.make_mesh(pts, tri, conv(blocks), conv(nodeSets), _to_j(sideSets))
     disp = rng.standard_normal(pts.shape)
-    return mesh, jnp.array(disp), {"pts": pts, "tri": tri, "blocks": blocks, "nodeSets": nodeSets, "sideSets": sideSets, "disp": disp}
+    return mesh, jnp.array(disp), {"pts": pts, "tri": tri, "blocks": blocks, "nodeSets": nodeSets, "sideSets": sideSets, "disp": disp,
+                                   "numpy_backed": numpy_backed}
 
 
 def _expected_merge(a, b):
@@ -400,6 +405,30 @@ def run_combine(case, res, rng):
         allb = sorted(v for vals in ({k2: V.multiset(b) for k2, b in merged.blocks.items()}).values() for v in vals)
         res.expect("merge.no_element_lost", allb == list(range(info["conns"].shape[0])),
                    {"tag": tag, "in_blocks": len(allb), "elements": int(info["conns"].shape[0])})
+        # the operands must come out of the call unchanged (a mesh is routinely merged more than once, and a reader's mesh is
+        # still used after the merge)
+        for who, (mm, dd) in (("first", (cur_mesh, cur)), ("second", (m2, desc2))):
+            same = onp.array_equal(onp.asarray(mm.coords), dd["pts"]) and onp.array_equal(onp.asarray(mm.conns), dd["tri"])
+            for kind in ("blocks", "nodeSets", "sideSets"):
+                have, put = getattr(mm, kind), dd[kind]
+                if (have is None) != (put is None):
+                    same = False
+                elif have is not None:
+                    same = same and set(have.keys()) == set(put.keys()) and all(
+                        onp.array_equal(onp.asarray(have[k2]).reshape(-1), onp.asarray(put[k2]).reshape(-1)) for k2 in put)
+            res.expect("merge.operands_unchanged", same, {"tag": tag, "operand": who, "numpy_backed": bool(dd.get("numpy_backed"))})
+            res.count("merge_operand_checked_numpy_backed" if dd.get("numpy_backed") else "merge_operand_checked_jax_backed")
+        # merging the very same operands again must give the very same result
+        if k == 1 and i % 2 == 0:
+            out2 = _call(res, "merge", Mesh.combine_mesh, (cur_mesh, cur_disp), (m2, d2))
+            if out2 is not None:
+                again = V.validate_mesh(Res({}), out2[0], tag + " (repeat)", expect_degree=1, expect_bubble=False)
+                ok = again is not None and onp.array_equal(again["coords"], info["coords"]) and onp.array_equal(again["conns"], info["conns"])
+                res.expect("merge.repeat_identical", ok, {"tag": tag})
+                _compare_sets(res, V, "merge.repeat_blocks", out2[0].blocks, want["blocks"], tag, "blocks")
+                _compare_sets(res, V, "merge.repeat_nodesets", out2[0].nodeSets, want["nodeSets"], tag, "nodeSets")
+                _compare_sets(res, V, "merge.repeat_sidesets", out2[0].sideSets, want["sideSets"], tag, "sideSets")
+                res.count("merge_repeated_with_same_operands")
         cur_mesh, cur_disp = merged, disp
         cur = {"pts": want["pts"], "tri": want["tri"], "disp": want["disp"], "blocks": want["blocks"], "nodeSets": want["nodeSets"], "sideSets": want["sideSets"]}
         if k == 2:
